@@ -133,6 +133,11 @@ func (b *BFT) handleHighQCVDFAndEvidence(vote *Message) lib.ErrorI {
 			if err = vote.HighQc.CheckHighQC(lib.GlobalMaxBlockSize, b.View, b.CommitteeData.LastRootHeightUpdated, vs); err != nil {
 				return err
 			}
+			// the Leader must be able to re-propose the locked proposal: a highQC that comes without the block and results
+			// it certifies is unusable, and adopting it would make every Leader propose nothing for the rest of the height
+			if vote.HighQc.Block == nil || vote.HighQc.Results == nil {
+				return lib.ErrNilBlock()
+			}
 			// save the highQC if it's higher than any the Leader currently is aware of
 			if b.HighQC == nil || b.HighQC.Header.Less(vote.HighQc.Header) {
 				b.log.Infof("Replica %s submitted a highQC", lib.BytesToTruncatedString(vote.Signature.PublicKey))
